@@ -29,7 +29,7 @@ ASSUMPTIONS = [
     "ClockSignal/ResetSignal targets are lowered by DomainLowerer before simulation / netlist emission",
 ]
 
-MIN_INSTANCES = {"R-02h": 6, "R-02a": 60, "R-02b": 4, "R-02c": 8, "R-02d": 12, "R-02e": 6, "R-02g": 5, "R-02f": 3}
+MIN_INSTANCES = {"R-02i": 15, "R-02h": 6, "R-02a": 60, "R-02b": 4, "R-02c": 8, "R-02d": 12, "R-02e": 6, "R-02g": 5, "R-02f": 3}
 
 LHS_KEYS = [("Signal", None), ("Slice", None), ("Part", None), ("Concat", None), ("SwitchValue", None),
             ("Operator", "u"), ("Operator", "s")]
@@ -1309,5 +1309,13 @@ def r02h(model, ctx):
                   f"{kind}: exactly one Switch must be emitted per domain", f"{DSL}:{dl.lineno}")
 
 
-RULES = [("R-02h", r02h), ("R-02a", r02a), ("R-02b", r02b), ("R-02c", r02c), ("R-02d", r02d), ("R-02e", r02e), ("R-02g", r02g),
+
+def r02i(model, ctx):
+    """the control-flow builder: If/Elif/Else, Switch/Case/Default, FSM/State/next, _add_statement, elaborate — each compared
+    with its reference semantics (sa/refs/c02_dsl.py) by path summary"""
+    from .reflib import run_ref_file
+    run_ref_file(model, ctx, "R-02i", "c02_dsl")
+
+
+RULES = [("R-02i", r02i), ("R-02h", r02h), ("R-02a", r02a), ("R-02b", r02b), ("R-02c", r02c), ("R-02d", r02d), ("R-02e", r02e), ("R-02g", r02g),
          ("R-02f", r02f)]
